@@ -595,6 +595,8 @@ class DataLinkConnection(TransmissionControlObject):
                 self.acks_ready.notify_all()
                 send_pdu = pdu.Disconnect(self.peer, self.addr)
                 self.send_queue.append(send_pdu)
+                # unread data is dropped, only the DM response is awaited
+                self.recv_queue.clear()
                 try:
                     super(DataLinkConnection, self).recv()
                 except IndexError:
